@@ -355,6 +355,9 @@ func (w *World) diffAccounts(x, y sdk.Context, xn, yn string) string {
 		}
 	}
 	if len(out) == 0 {
+		if core.StateHash(w.App, x, bankOnly) == core.StateHash(w.App, y, bankOnly) {
+			return "(all balances equal)"
+		}
 		return "(an account outside the named set differs)"
 	}
 	return strings.Join(out, " ")
